@@ -275,7 +275,7 @@ def run(ctx, cases=None):
         gcases = [c for c in cases if "gen" in c]
         helpers = [c for c in cases if "typ" in c]
         res.rule = "replay"
-    from multiprocessing import Pool
+    from ..common import Pool
     with Pool(16) as pool:
         events = pool.map(run_gen, gcases, chunksize=100) + pool.map(run_helper, helpers, chunksize=100)
     allcases = gcases + helpers
